@@ -9,6 +9,7 @@ import re
 import featlib
 from featlib import Check, render, walk, children
 import ikinds
+import norm_c12
 from ikinds import (Contracts, FnKinds, FunctionIndex, Lin, Rng, Top, strip, _subscript, _is_incdec, _is_deref, coverage, mask_test, frames_key, elsewhere)
 
 ADJ = featlib.repo_path("kernel/adjacency/")
@@ -95,6 +96,10 @@ def seed(fk):
 
 
 NAMES = ("calc_swap_from_perm", "calc_perm_from_swap", "size", "apply", "get_perm_pos", "get_swap_pos", "sort_indices", "get_num_nodes_domain")
+# functions that are never inlined by the tree normaliser (lib/norm_c12.py): anchors of their own rules, calls the rules look for by name,
+# accessors with contracts.  Any OTHER helper of the same class / file (a block a maintainer moved out) is read as its body.
+KEEP = NAMES + ("_render_.*", "get_.*", "degree", "image_begin", "image_end", "insert", "erase", "exists", "compose", "compute", "release_color", "clear", "clone", "inverse",
+                "concat", "map", "serialize", "bytes", "create_partition_graph", "permute_indices", "empty", "swap")
 
 
 def vob(ck, fk, keys, names, rule, key, ok, detail, file=None, line=None, **kw):
@@ -147,6 +152,10 @@ class World:
                 seen.add(key)
                 self.fns.append(fn)
         self._fk = {}
+        self.norm = norm_c12.Normaliser(self.findex, keep=KEEP, else_of_return=(r"Adjacency::Permutation::apply$",))
+        for fn in self.fns:
+            if re.search(SCOPE_RE, fn.file):
+                self.norm.apply(fn)
 
     def fk(self, fn):
         k = (fn.full, fn.file, fn.line)
@@ -1273,12 +1282,15 @@ def rule_permutation(w):
             problems = []
             wr = [e for e in fk.events if e.kind == "sub" and e.mode == "write" and e.arr.key == "y"]
             fwd = inv = None
+            unclear = []
             for e in wr:
                 ifs = [f for f in e.frames if f.kind == "if"]
-                if len(ifs) != 1 or ifs[0].canon not in ("!invert", "invert"):
-                    problems.append("store into y not under the single branch on `invert`")
+                pol = norm_c12.bool_polarity(ifs[0].node.get("c"), name="invert") if len(ifs) == 1 else None
+                if len(ifs) != 1 or pol is None:
+                    # a decision in another spelling (ternary, several conditions, no branch at all): not read by this rule
+                    unclear.append("store y[%s] is not under a single branch on `invert` (%s)" % (e.idx_canon, " && ".join(f.canon for f in ifs) or "unconditional"))
                     continue
-                forward = (ifs[0].canon == "!invert") == (ifs[0].branch == "then")
+                forward = (pol == -1) == (ifs[0].branch == "then")
                 lps = [f.loop for f in e.frames if f.kind == "loop"]
                 if len(lps) != 1 or lps[0] is None or lps[0].kind != "range" or lps[0].lo != 0 or lps[0].hi is None or \
                         fk.norm(lps[0].hi) != fk.norm(Lin.atom("size(this._perm_pos)")):
@@ -1287,6 +1299,10 @@ def rule_permutation(w):
                     fwd = (e.idx_canon, e.val_canon)
                 else:
                     inv = (e.idx_canon, e.val_canon)
+            if unclear or (not wr and elsewhere(fk, ("y",), names=NAMES)):
+                ck.incomplete("E2.perm-forms", "%s: %s" % (short(fn), "; ".join(unclear) or elsewhere(fk, ("y",), names=NAMES)))
+                obs.setdefault("Permutation::apply(%s)" % ",".join(pn), [])
+                continue
             if fwd != ("$0", "x[this._perm_pos[$0]]"):
                 problems.append("forward application is %s, documented y[i] = x[perm_pos[i]]" % (("y[%s] = %s" % fwd) if fwd else "missing"))
             if inv != ("this._perm_pos[$0]", "x[$0]"):
@@ -1297,15 +1313,20 @@ def rule_permutation(w):
             problems = []
             sw = [e for e in fk.events if e.kind == "sub" and e.arr.key == "this._swap_pos" and e.mode == "read"]
             by = {}
+            unclear = []
             for e in sw:
-                ifs = [f for f in e.frames if f.kind == "if" and f.canon in ("!invert", "invert")]
+                ifs = [f for f in e.frames if f.kind == "if" and norm_c12.bool_polarity(f.node.get("c"), name="invert") is not None]
                 lps = [f.loop for f in e.frames if f.kind == "loop"]
                 if len(ifs) != 1 or len(lps) != 1 or lps[0] is None:
-                    problems.append("swap position read outside the two branches on `invert`")
+                    unclear.append("swap position %s is read outside a single branch on `invert` / a single loop" % e.idx_canon)
                     continue
-                forward = (ifs[0].canon == "!invert") == (ifs[0].branch == "then")
+                forward = (norm_c12.bool_polarity(ifs[0].node.get("c"), name="invert") == -1) == (ifs[0].branch == "then")
                 by["fwd" if forward else "inv"] = (lps[0], e)
             n = fk.norm(Lin.atom("size(this._perm_pos)"))
+            if unclear or (not sw and elsewhere(fk, ("x", "this._swap_pos"), names=NAMES)):
+                ck.incomplete("E2.perm-forms", "%s: %s" % (short(fn), "; ".join(unclear) or elsewhere(fk, ("x", "this._swap_pos"), names=NAMES)))
+                obs.setdefault("Permutation::apply(%s)" % ",".join(pn), [])
+                continue
             if "fwd" in by:
                 lp, e = by["fwd"]
                 if not (lp.kind == "range" and lp.lo == 0 and isinstance(e.rng, Rng) and e.rng.lo == 0 and fk.norm(e.rng.hi) in (n, n - 1) and e.idx_canon == "$0"):
